@@ -254,6 +254,17 @@ int mkdir(const char *path, mode_t m)
 	return real_mkdir(path, m);
 }
 
+/* lstat / stat of an entry of the token directory: an event only when FSSHIM_LSTAT is set (the numbering of the events
+ * of all other streams stays what it was); never made to fail, only a point where the process can be paused / killed */
+static int (*real_lstat)(const char *, struct stat *);
+int lstat(const char *path, struct stat *st)
+{
+	init();
+	if (!real_lstat) real_lstat = dlsym(RTLD_NEXT, "lstat");
+	if (getenv("FSSHIM_LSTAT") && under(path)) event("lstat", path);
+	return real_lstat(path, st);
+}
+
 int rmdir(const char *path)
 {
 	init();
